@@ -597,7 +597,12 @@ func (b *UnsafeLinkBuffer) WriteDirect(extra []byte, remainLen int) error {
 		newNode.off = malloc
 		newNode.buf = origin.buf[:malloc]
 		newNode.malloc = origin.malloc
-		newNode.unsetFlag(flagUnmanaged)
+		if origin.reusable() {
+			// newNode takes over the ownership of origin's memory. If origin does not own its memory
+			// (user data, or already split by an earlier WriteDirect), newNode must not own it either,
+			// otherwise the same block would be written through and freed by two nodes.
+			newNode.unsetFlag(flagUnmanaged)
+		}
 		origin.malloc = malloc
 		origin.setFlag(flagUnmanaged)
 
